@@ -116,7 +116,16 @@ def translator_validation(ctx, drv):
                 if exact:
                     ctx.eq_bits("gen." + fn, v, m, cs)
                 else:
-                    ctx.eq_close("gen." + fn, v, m, cs, rel=rel, abs_=1e-11 if fn == "egg_velocity" else 1e-300)
+                    if fn == "egg_velocity":
+                        abs_ = 1e-11
+                    elif fn == "larvae_growth":
+                        # growth = (exp(g) - 1) * w: for g ~ 1e-7 (dt = 1 s, cold water) one ulp of exp(g) ~ 1 is a relative
+                        # error of 1e-9 of the growth; numpy's and libm's exp may differ by that ulp (3 of 600 000 inputs
+                        # in that band do).  The comparison is therefore also accepted within 4 ulp of exp(g) ~ 1, times w
+                        abs_ = 8e-16 * abs(float(args[1]))
+                    else:
+                        abs_ = 1e-300
+                    ctx.eq_close("gen." + fn, v, m, cs, rel=rel, abs_=abs_)
 
 
 def oracles(ctx):
